@@ -593,11 +593,14 @@ Definition propagate_lock (s : state) (p : path) : state :=
                                        (n_memmap n) (n_cache n)
                         else n).
 
-(* base.py:13109 / _lazy.py:3179 _propagate_unlock: @erase_cache on every node of the subtree; a lazy stack's flag becomes None *)
-Definition propagate_unlock (s : state) (p : path) : state :=
+(* base.py _propagate_unlock / _lazy.py: @erase_cache on every node of the subtree; a lazy stack's flag becomes None; _is_memmap
+   (and _is_shared) are cleared.  [keep]: what is left of _is_memmap once unlock_ is over — an unlock_ that ends up REFUSED puts the
+   flags back (D68 repaired: TensorDictBase._unset_shared_memmap records them for the running unlock_) *)
+Definition propagate_unlock_k (keep : bool) (s : state) (p : path) : state :=
   upd_nodes s (fun n => if is_prefix p (n_path n)
-                        then with_lock n (match n_kind n with NTD => Some false | NLAZY => None end) (n_parents n) false []
+                        then with_lock n (match n_kind n with NTD => Some false | NLAZY => None end) (n_parents n) (keep && n_memmap n) []
                         else n).
+Definition propagate_unlock (s : state) (p : path) : state := propagate_unlock_k false s p.
 
 (* base.py:13123 _check_unlock over the subtree: some registered parent is still locked *)
 Definition unlock_blocked (s : state) (p : path) : bool :=
@@ -617,11 +620,14 @@ Record fixes := { fix_rebind : bool;    (* D19/S4/D60: _set_str(ignore_lock=True
                   fix_memmap : bool;    (* D61: _memmap_(inplace) on a locked node does the same, node by node *)
                   fix_lockgraph : bool; (* D7 (C05): _memmap_ leaves the flags alone; memmap_() locks its result through
                                            base._lock_graph = root._propagate_lock(None), whatever the flags are *)
-                  fix_lockflag : bool   (* D55 (C05): lock_ returns early on the stored flag _is_locked, not on the derived is_locked *) }.
+                  fix_lockflag : bool;  (* D55 (C05): lock_ returns early on the stored flag _is_locked, not on the derived is_locked *)
+                  fix_unlockflags : bool; (* D68: a refused unlock_ restores the _is_memmap / _is_shared flags that _propagate_unlock cleared *)
+                  fix_attach : bool     (* D69: _make_memmap_subtd locks the nested tensordict it binds under a locked one (flag, lock parents) and
+                                           gives it the memmap flag of the tensordict it is bound to *) }.
 (* /repo with the fix: commits of C06 and of C05 (lock graph) applied *)
-Definition repo : fixes := {| fix_rebind := true; fix_meta := true; fix_memmap := true; fix_lockgraph := true; fix_lockflag := true |}.
+Definition repo : fixes := {| fix_rebind := true; fix_meta := true; fix_memmap := true; fix_lockgraph := true; fix_lockflag := true; fix_unlockflags := true; fix_attach := true |}.
 (* /repo before them (the refutations of C06 were stated about this one) *)
-Definition unrepaired : fixes := {| fix_rebind := false; fix_meta := false; fix_memmap := false; fix_lockgraph := false; fix_lockflag := false |}.
+Definition unrepaired : fixes := {| fix_rebind := false; fix_meta := false; fix_memmap := false; fix_lockgraph := false; fix_lockflag := false; fix_unlockflags := false; fix_attach := false |}.
 Definition all_fixed : fixes := repo.
 
 Inductive outcome := Done | RaisedLock | RaisedOther | NoSuchTarget.
@@ -634,12 +640,14 @@ Definition lock_ (fx : fixes) (s : state) (p : path) : state * outcome :=
   | Some n => if (if fix_lockflag fx then flag_locked n else node_locked s n) then (s, Done) else (propagate_lock s p, Done)
   end.
 
-Definition unlock_ (s : state) (p : path) : state * outcome :=
+Definition unlock_ (fx : fixes) (s : state) (p : path) : state * outcome :=
   match find_node s p with
   | None => (s, NoSuchTarget)
   | Some n =>
       let s1 := propagate_unlock s p in
-      if unlock_blocked s1 p then (propagate_lock s1 p, RaisedLock)      (* except RuntimeError: self.lock_(); raise *)
+      if unlock_blocked s1 p
+      then (* except Exception: self.lock_(); [D68 repaired: restore _is_shared / _is_memmap of every node]; raise *)
+           (propagate_lock (propagate_unlock_k (fix_unlockflags fx) s p) p, RaisedLock)
       else (clear_parents s1 p, Done)
   end.
 
@@ -686,6 +694,9 @@ Inductive op :=
 | ODel (p : path)                             (* del_ of a leaf or of a whole nested node; blocked when the owner is locked *)
 | OPromote (p : path) (l : leaf)              (* td[idx] = <non-tensor>: NonTensorData -> NonTensorStack, _set_str(ignore_lock=True) *)
 | OMakeMemmap (p : path) (l : leaf)           (* make_memmap / _from_tensor / _from_storage: NEW entry, ignore_lock=True *)
+| OMakeMemmapNested (p : path) (uid : nat) (k : string) (l : leaf)
+                                              (* make_memmap* with the nested key (last p, k) on the node above p: _make_memmap_subtd binds
+                                                 the missing nested tensordict at p, then NEW entry p ++ [k] in it, ignore_lock=True *)
 | OMemmap (p : path) (base : nat)             (* memmap_() in place: every tensor entry is replaced by a MemoryMappedTensor *)
 | OSetNames (p : path) (names : option (list string))
 | OSetBatchSize (p : path) (bs : list nat).
@@ -727,10 +738,23 @@ Definition locked_at (s : state) (x : path) : bool :=
 
 Definition is_node_path (s : state) (p : path) : bool := match find_node s p with Some _ => true | None => false end.
 
+Definition has_leaf (s : state) (p : path) : bool := match find_leaf s p with Some _ => true | None => false end.
+
+(* _td.py _make_memmap_subtd, one missing level, no memmap prefix: result_tmp = result.empty() (batch size, names, device of the
+   tensordict [o] it is bound to); result._tensordict[key] = result_tmp; when [o] is locked it erases upwards (D19/D60 repair) and
+     repaired (D69)  result_tmp gets o's memmap flag and result_tmp._propagate_lock(o's lock parents + [o]): flagged, registered
+     unrepaired      result_tmp stays as empty() made it: not locked, no parents, not memmap
+   The erasure is computed first here: the new node has no cache and is nobody's parent, the order does not show. *)
+Definition attach_node (fx : fixes) (s : state) (p : path) (uid : nat) (o : node) : state :=
+  let s0 := if fix_rebind fx && flag_locked o then erase_touched s (fun x => path_eqb x (n_path o)) else s in
+  {| nodes := nodes s0 ++ [new_node p uid (n_meta o) (fix_attach fx && flag_locked o) (fix_attach fx && n_memmap o)
+                                    (if fix_attach fx && flag_locked o then n_parents o ++ [n_path o] else [])];
+     leaves := leaves s0; store := store s0 |}.
+
 Definition step (fx : fixes) (hooked : bool) (s : state) (o : op) : state * outcome :=
   match o with
   | OLock p => lock_ fx s p
-  | OUnlock p => unlock_ s p
+  | OUnlock p => unlock_ fx s p
   | ORead p m args kwargs => match read hooked s p m args kwargs with (s', Some _) => (s', Done) | (s', None) => (s', NoSuchTarget) end
   | OInplace p v =>
       match find_leaf s p with
@@ -788,6 +812,25 @@ Definition step (fx : fixes) (hooked : bool) (s : state) (o : op) : state * outc
           else if is_node_path s p || (match find_leaf s p with Some _ => true | None => false end) then (s, RaisedOther)
           else let s1 := set_leaf s p l in
                ((if fix_rebind fx && flag_locked n then erase_touched s1 (fun x => path_eqb x (parent_of p)) else s1), Done)
+      | _, _ => (s, NoSuchTarget)
+      end
+  | OMakeMemmapNested p uid k l =>
+      match find_node s (parent_of p), p with
+      | Some o, _ :: _ =>
+          if negb (n_memmap o) then (s, RaisedOther)                       (* "Can only make a memmap tensor within a memory-mapped tensordict" *)
+          else if has_leaf s p then (s, RaisedOther)                       (* the first key names an entry, not a nested tensordict *)
+          else if negb (is_node_path s p) && (existsb (fun x => is_prefix p (n_path x)) (nodes s) || existsb (fun ql => is_prefix p (fst ql)) (leaves s))
+          then (s, RaisedOther)                                            (* not a tree (something below p without p): never built *)
+          else
+            let s1 := if is_node_path s p then s else attach_node fx s p uid o in
+            (* ... then as with a plain key on the nested tensordict (no is_memmap test there) *)
+            match find_node s1 p with
+            | Some x =>
+                if is_node_path s1 (p ++ [k]) || has_leaf s1 (p ++ [k]) then (s1, RaisedOther)
+                else let s2 := set_leaf s1 (p ++ [k]) l in
+                     ((if fix_rebind fx && flag_locked x then erase_touched s2 (fun y => path_eqb y (parent_of (p ++ [k]))) else s2), Done)
+            | None => (s1, NoSuchTarget)
+            end
       | _, _ => (s, NoSuchTarget)
       end
   | OMemmap p base =>
